@@ -7,6 +7,7 @@ import (
 	"fmt"
 	"math/big"
 	"math/rand"
+	"sync"
 
 	"worldcoin/gnark-mbu/prover"
 )
@@ -125,6 +126,8 @@ func init() {
 		var cs struct {
 			Systems    []sysSpec   `json:"systems"`
 			Behaviours [][]c07Step `json:"behaviours"`
+			Rounds     int         `json:"concurrentRounds"` // rounds of simultaneous Prove calls per system (each must behave as if run alone)
+			Width      int         `json:"concurrentWidth"`
 		}
 		loadCases(args, &cs)
 		rng := rand.New(rand.NewSource(seed()))
@@ -133,6 +136,68 @@ func init() {
 		for _, s := range cs.Systems {
 			systems[s.ID] = buildSystem(s) // independent setups: two systems of equal dimensions have different keys
 			spec[s.ID] = s
+		}
+		// Prove is one atomic action in Prover.tla: simultaneous calls on the same system must each behave as if run alone
+		for _, sp := range cs.Systems {
+			if cs.Rounds == 0 {
+				break
+			}
+			ps := systems[sp.ID]
+			r := Result{ID: "concurrent/" + sp.ID, OK: true, Kind: "prover-concurrent"}
+			for round := 0; round < cs.Rounds && r.OK; round++ {
+				type job struct {
+					ins  *prover.InsertionParameters
+					del  *prover.DeletionParameters
+					hash *big.Int
+					pr   *prover.Proof
+					err  error
+				}
+				jobs := make([]*job, cs.Width)
+				for i := range jobs {
+					j := &job{}
+					if sp.Mode == "insertion" {
+						j.ins = randomValidInsertion(rng, int(sp.Depth), int(sp.Batch))
+						j.hash = new(big.Int).Set(&j.ins.InputHash)
+					} else {
+						j.del = randomValidDeletion(rng, int(sp.Depth), int(sp.Batch))
+						j.hash = new(big.Int).Set(&j.del.InputHash)
+					}
+					jobs[i] = j
+				}
+				start := make(chan struct{})
+				var wg sync.WaitGroup
+				for _, j := range jobs {
+					wg.Add(1)
+					go func(j *job) {
+						defer wg.Done()
+						<-start
+						if j.ins != nil {
+							j.pr, j.err = ps.ProveInsertion(j.ins)
+						} else {
+							j.pr, j.err = ps.ProveDeletion(j.del)
+						}
+					}(j)
+				}
+				close(start)
+				wg.Wait()
+				for i, j := range jobs {
+					var verr error
+					if j.err == nil && j.pr != nil {
+						if sp.Mode == "insertion" {
+							verr = ps.VerifyInsertion(*j.hash, j.pr)
+						} else {
+							verr = ps.VerifyDeletion(*j.hash, j.pr)
+						}
+					}
+					if j.err != nil || j.pr == nil || verr != nil {
+						r.OK = false
+						r.Detail = fmt.Sprintf("round %d: %d simultaneous Prove calls on system %s: call %d on a VALID batch returned err=%v, own-hash verification=%v", round, cs.Width, sp.ID, i, j.err, verr)
+						r.Case = map[string]interface{}{"systems": []sysSpec{sp}, "behaviours": [][]c07Step{}, "concurrentRounds": cs.Rounds, "concurrentWidth": cs.Width}
+						break
+					}
+				}
+			}
+			emit(r)
 		}
 		for bi, bh := range cs.Behaviours {
 			r := Result{ID: fmt.Sprintf("behaviour%d", bi), OK: true, Kind: "prover"}
